@@ -8,13 +8,21 @@
 //!                                                SimpleJobExecutor::run_jobs_async polled by hand; the seed
 //!                                                chooses what the host does between polls (nothing, extra
 //!                                                no-op polls of an unrelated future, a forced collection)
+//!        | {"m":"sweep","budgets":[b…],"seed":s}  the async schedule for every budget of the ascending list; the
+//!                                                sweep stops after the first budget under which no evaluation
+//!                                                yielded (all larger budgets give the very same execution) and
+//!                                                then runs the last budget of the list; answers
+//!                                                {"sweep":[{"budget":b,"steps":…,"jobs":…}…]}
 //!        | {"m":"count","seed":s}                a strict FIFO executor defined here that records
 //!                                                enqueue/run events into the observation stream and drains
 //!                                                the queue in several run_jobs calls (seeded quotas); host
 //!                                                hooks record HostPromiseRejectionTracker calls
 //!   "reuse": true makes the sync/eval/async modes of one scenario share one context (count always builds
 //!   its own context, because it installs its own executor and hooks)
-//! Output line: {"id":…, "res":[{"steps":[{"out":[…],"c":completion,"polls":n}…]} | {"panic":msg}]}
+//! Output line: {"id":…, "hook":bool, "res":[{"steps":[{"out":[…],"c":completion,"polls":n}…], "jobs":[["e",1],["r",1]…]}
+//!               | {"panic":msg}]}
+//!   "jobs" (only when the engine has the cfg(boa_verif) job event hook, "hook": true): what SimpleJobExecutor
+//!   itself recorded in the sync/eval/async modes: ("e", id) enqueue, ("r", id) the job is called
 //! Stream entries: print lines as rendered by hcommon ("s:label n:7"), "J+<id>" job enqueued (ids count
 //! from 1 in enqueue order), "J><id>" job starts, "K:reject" / "K:handle" tracker calls, "J!<completion>"
 //! a job returned an error (never expected), "J?other" a non-promise job was enqueued.
@@ -175,6 +183,23 @@ impl HostHooks for TrackHooks {
 
 // ---------------------------------------------------------------- modes
 
+#[cfg(has_job_hook)]
+fn hook_start() {
+    boa_engine::verif::set_job_events(true);
+}
+#[cfg(has_job_hook)]
+fn hook_take() -> Value {
+    let evs = boa_engine::verif::take_job_events();
+    boa_engine::verif::set_job_events(false);
+    Value::Array(evs.into_iter().map(|(k, id)| json!([k.to_string(), id])).collect())
+}
+#[cfg(not(has_job_hook))]
+fn hook_start() {}
+#[cfg(not(has_job_hook))]
+fn hook_take() -> Value {
+    Value::Null
+}
+
 fn step_json(c: String, polls: u64) -> Value {
     json!({"out": take_out(), "c": c, "polls": polls})
 }
@@ -205,6 +230,7 @@ fn run_mode(srcs: &[String], mode: &Value, shared: &mut Option<Context>, reuse: 
                 own = new_default_context();
                 &mut own
             };
+            hook_start();
             for src in srcs {
                 if m == "async" {
                     let budget = mode.get("budget").and_then(Value::as_u64).unwrap_or(256) as u32;
@@ -263,7 +289,57 @@ fn run_mode(srcs: &[String], mode: &Value, shared: &mut Option<Context>, reuse: 
         }
         _ => return json!({"panic": format!("unknown mode {m}")}),
     }
-    json!({"steps": steps})
+    if m == "count" {
+        json!({"steps": steps})
+    } else {
+        json!({"steps": steps, "jobs": hook_take()})
+    }
+}
+
+fn guarded(srcs: &[String], mode: &Value, shared: &mut Option<Context>, reuse: bool) -> Value {
+    let r = std::panic::catch_unwind(std::panic::AssertUnwindSafe(|| run_mode(srcs, mode, shared, reuse)));
+    match r {
+        Ok(v) => v,
+        Err(p) => {
+            let loc = LAST_PANIC.with(|c| c.borrow().clone());
+            let _ = take_out();
+            if let Some(c) = shared.take() {
+                std::mem::forget(c);
+            }
+            json!({"panic": format!("{} @ {}", panic_message(&p), loc)})
+        }
+    }
+}
+
+fn run_sweep(srcs: &[String], mode: &Value, shared: &mut Option<Context>, reuse: bool) -> Value {
+    let budgets: Vec<u64> = mode
+        .get("budgets")
+        .and_then(Value::as_array)
+        .map(|a| a.iter().filter_map(Value::as_u64).collect())
+        .unwrap_or_default();
+    let seed = mode.get("seed").and_then(Value::as_u64).unwrap_or(1);
+    let mut out = Vec::new();
+    let mut k = 0;
+    while k < budgets.len() {
+        let b = budgets[k];
+        let m = json!({"m": "async", "budget": b, "seed": seed.wrapping_add(b)});
+        let mut r = guarded(srcs, &m, shared, reuse);
+        // did any evaluation (even steps) yield?
+        let yielded = r
+            .get("steps")
+            .and_then(Value::as_array)
+            .map(|st| st.iter().step_by(2).any(|s| s.get("polls").and_then(Value::as_u64).unwrap_or(1) > 1))
+            .unwrap_or(true);
+        r["budget"] = json!(b);
+        out.push(r);
+        if !yielded && k + 1 < budgets.len() {
+            // every larger budget gives this very execution; still run the largest one of the list
+            k = budgets.len() - 1;
+        } else {
+            k += 1;
+        }
+    }
+    json!({"sweep": out})
 }
 
 fn run_scenario(sc: &Value) -> Value {
@@ -277,6 +353,10 @@ fn run_scenario(sc: &Value) -> Value {
     let mut shared: Option<Context> = None;
     let mut res = Vec::new();
     for mode in &modes {
+        if mode.get("m").and_then(Value::as_str) == Some("sweep") {
+            res.push(run_sweep(&srcs, mode, &mut shared, reuse));
+            continue;
+        }
         let r = std::panic::catch_unwind(std::panic::AssertUnwindSafe(|| run_mode(&srcs, mode, &mut shared, reuse)));
         res.push(match r {
             Ok(v) => v,
@@ -291,7 +371,7 @@ fn run_scenario(sc: &Value) -> Value {
             }
         });
     }
-    json!({"id": sc.get("id").cloned().unwrap_or(Value::Null), "res": res})
+    json!({"id": sc.get("id").cloned().unwrap_or(Value::Null), "hook": cfg!(has_job_hook), "res": res})
 }
 
 fn main() {
